@@ -2,6 +2,8 @@
 //
 // The legs that run in the NORMAL tiers (element types, machine-word arguments, constructor forms) are in legs3.go; they
 // share this file's engines (deng, ueng) and oracle.
+// Fourth wave, also NORMAL tiers: large one-piece rings (capacity 4096..65536, >= 1024 elements, every layout) under long
+// rotations and SetMinCapacity are in legs4.go (legs "bigpiece-rot", "bigpiece-smc", engine deng).
 //
 // The normal tiers keep deques below ~100 elements and capacities below 2048. The legs:
 //
@@ -967,7 +969,7 @@ func cqSearchCase(r *hxlib.Run, c SCase) bool {
 // ---- entry points ---------------------------------------------------------------------------------------------------
 
 func replaySearch(r *hxlib.Run, c SCase) {
-	if isLeg3(c.Leg) { // legs3.go (normal tiers)
+	if isLeg3(c.Leg) || isLeg4(c.Leg) { // legs3.go, legs4.go (normal tiers)
 		legCase(r, c)
 		return
 	}
